@@ -6,6 +6,7 @@ import (
 	"encoding/xml"
 	"errors"
 	"fmt"
+	"os"
 	"strings"
 	"time"
 
@@ -208,8 +209,30 @@ func runC10(rc *RC) {
 	if ch.Chance("workload", 1, 4) {
 		rc.S.PausePerm = 15
 	}
+	// back-pressure: the peer's receive window is a few dozen bytes and it starts reading late, so that writes (the
+	// closing tag too) stay in flight for a while; some senders come with contexts that have ended, end soon, or are
+	// cancelled while they transmit
+	bp := !opts.Plain && ch.Chance("workload", 1, 5)
+	if bp {
+		e.SUT.Out().Cap = ch.Range("net", 8, 64)
+		drainAfter := time.Duration(ch.Range("workload", 1, 40)) * 50 * time.Millisecond
+		dr := rc.Spawn("drainer", func() {
+			simrt.Sleep(drainAfter)
+			buf := make([]byte, 256)
+			for {
+				if _, err := e.Peer.Read(buf); err != nil {
+					return
+				}
+			}
+		})
+		dr.Daemon = true
+		rc.Fire("slow-peer")
+	}
 	nClosers := ch.Range("workload", 1, 3)
 	nSenders := ch.Range("workload", 0, 3)
+	if bp && nSenders == 0 {
+		nSenders = 1
+	}
 	peerProg := ch.Int("workload", 5) // 0 silent, 1 close after SUT closes, 2 close at t, 3 stream error at t, 4 provoke handler error at t
 	peerAt := time.Duration(ch.Range("workload", 0, 40)) * 50 * time.Millisecond
 	useDeadline := ch.Chance("workload", 1, 3)
@@ -291,6 +314,17 @@ func runC10(rc *RC) {
 			for k, c := range plan {
 				simrt.Sleep(delays[k])
 				ctx, cancel := context.WithTimeout(e.Ctx, 5*time.Second)
+				if bp {
+					switch ch.Int("workload", 4) {
+					case 0:
+						cancel() // the caller has given up already
+					case 1:
+						ctx, cancel = context.WithTimeout(e.Ctx, time.Duration(ch.Range("workload", 1, 60))*5*time.Millisecond)
+					case 2:
+						d, cn := time.Duration(ch.Range("workload", 0, 40))*5*time.Millisecond, cancel
+						rc.Spawn("tx-canceller", func() { simrt.Sleep(d); simrt.Settle(cn, "h:cancel") })
+					}
+				}
 				c.inv = rc.S.Steps
 				calls = append(calls, c)
 				c.err = doTx(ctx, e.Sess, c.kind, c.pad+c.marker)
@@ -359,6 +393,27 @@ func runC10(rc *RC) {
 	if e.ServeDone && (firstCloseRet < 0 || e.ServeRetStep < firstCloseRet) {
 		firstCloseRet = e.ServeRetStep
 	}
+	// under back-pressure a transmit call whose context ends is cut off in the middle of its write: part of its element
+	// is on the wire and the encoder's buffered writer refuses everything from then on. That is the caller's doing;
+	// what it does to the stream is not held against the close machinery
+	writeCut := false
+	if bp {
+		for _, c := range calls {
+			if c.done && c.err != nil && !errors.Is(c.err, xmpp.ErrOutputStreamClosed) {
+				writeCut = true
+			}
+		}
+		if e.ServeDone && e.ServeErr != nil && strings.Contains(e.ServeErr.Error(), "timeout") {
+			writeCut = true // a handler reply ran into the same dead writer
+		}
+	}
+	// nobody put a deadline on this session's writes: a Close that fails with a timeout was hit by somebody else's
+	for _, c := range closes {
+		rc.Evals["C10.c1"]++
+		if c.done && c.err != nil && (errors.Is(c.err, os.ErrDeadlineExceeded) || strings.Contains(c.err.Error(), "timeout")) {
+			rc.Failf("C10.c1", "close-hit-by-foreign-deadline", "Close returned %v: the write of the closing tag was ended by a write deadline that belongs to some transmit call's context, not to the close (closing tags on the wire: %d)", c.err, w.NumCloses)
+		}
+	}
 	// c1: at most one closing tag; exactly one once a close path has completed
 	rc.Check("C10.c1", "multiple-close-tags", w.NumCloses <= 1, "%d closing tags on the wire: %q", w.NumCloses, tail(tap, 200))
 	if anyClosed {
@@ -368,7 +423,7 @@ func runC10(rc *RC) {
 	if w.Closed {
 		rc.Check("C10.c2", "bytes-after-close", len(bytes.TrimSpace(w.Trailing)) == 0, "bytes after the closing tag: %q", clip(string(w.Trailing), 200))
 	}
-	if w.Err != nil {
+	if w.Err != nil && !writeCut {
 		rc.Failf("C10.c2", "malformed-output", "output stream is not well-formed at offset %d: %v: %q", w.ErrOff, w.Err, tail(tap[:min(len(tap), w.ErrOff+40)], 120))
 	}
 	// c3: transmit calls relative to Close
@@ -393,7 +448,7 @@ func runC10(rc *RC) {
 			}
 			continue
 		}
-		if c.err == nil {
+		if c.err == nil && !writeCut {
 			if pos < 0 {
 				// data may legitimately sit behind the cut of a failed transport; here there are no transport faults
 				rc.Failf("C10.c3", "tx-ok-but-missing:"+sigKind, "%s(%s) returned nil but its element is not on the wire", c.kind, c.marker)
@@ -420,7 +475,7 @@ func runC10(rc *RC) {
 			}
 		}
 		okDeadline := deadlinePassedAtRet && e.ServeErr != nil
-		if !okPeer && !okDeadline {
+		if !okPeer && !okDeadline && !writeCut {
 			rc.Failf("C10.c4", fmt.Sprintf("serve-result:peer%d:deadline=%v:ws=%v", peerProg, deadlineAt >= 0, opts.WS), "Serve returned %v at t=%v step %d; peer program %d acted at step %d (t=%v); deadline at %v", e.ServeErr, e.ServeRetTime, e.ServeRetStep, peerProg, peerActedStep, peerActedTime, deadlineAt)
 		}
 	} else {
